@@ -458,7 +458,6 @@ func calleeShort(c *ssa.Call) string {
 
 var _ = token.ADD
 
-
 // gateTables resolves a package-level constant integer table (array/slice literal or map literal).
 func (a *Analysis) gateTables(gl *ssa.Global) *gtable {
 	if gl == nil || gl.Pkg == nil || !a.P.InModule(gl.Pkg) {
